@@ -25,7 +25,7 @@ git -C /repo worktree add --detach {wt} HEAD
 rsync -a --ignore-existing --exclude .git /repo/ {wt}/     # brings git-ignored configure outputs
 cd {wt} && ./config.status >/dev/null && make -j8 >/dev/null 2>&1
 ```
-Never run `make -B`, autogen or autoreconf. Test suite: `cd {wt} && make -j8 check` (about 3 minutes; the 11 tests array, blackbox-segfault.sh, ipc, list, log, loop, map, rb, resources, sock_ipc_wrapper, start must all PASS; look at tests/test-suite.log). The built library is {wt}/lib/.libs/libqb.so (link demos with -I{wt}/include -I{wt}/include/qb -L{wt}/lib/.libs -lqb -lpthread and run with LD_LIBRARY_PATH={wt}/lib/.libs), or compile the needed lib/*.c files directly into the demo, optionally with -fsanitize=address,undefined (clang and gcc are available). Other agents may be running the test suite in their own worktrees at the same time: never delete /dev/shm/qb-* wholesale, remove only files your own runs left behind (by name), and if an IPC test fails once in a way unrelated to your change, re-run it before concluding.
+Never run `make -B`, autogen or autoreconf. Test suite: `cd {wt} && flock /tmp/qb-suite.lock make -j8 check` (always through that flock: several agents share this machine and concurrent suites make the IPC tests flaky; about 3 minutes once the lock is yours; the 11 tests array, blackbox-segfault.sh, ipc, list, log, loop, map, rb, resources, sock_ipc_wrapper, start must all PASS; look at tests/test-suite.log). The built library is {wt}/lib/.libs/libqb.so (link demos with -I{wt}/include -I{wt}/include/qb -L{wt}/lib/.libs -lqb -lpthread and run with LD_LIBRARY_PATH={wt}/lib/.libs), or compile the needed lib/*.c files directly into the demo, optionally with -fsanitize=address,undefined (clang and gcc are available). Other agents may be running the test suite in their own worktrees at the same time: never delete /dev/shm/qb-* wholesale, remove only files your own runs left behind (by name), and if an IPC test fails once in a way unrelated to your change, re-run it before concluding.
 
 ## Deliverables (directory {out}/, create it)
 For change k in 1..{n}: `{out}/change<k>/patch.diff` (unified diff, a/ b/ prefixes, applies to /repo HEAD with `git apply`), `{out}/change<k>/demo.c` (and `demo.sh` if needed: how to build and run it given a libqb tree path as $1, exit 0 = property held, non-zero = broken), `{out}/change<k>/NOTES.md`: what the change is, why it breaks the property, what it needs in order to manifest, the exact commands you ran, and the observed results: (a) test suite with the change: all pass; (b) demo on unchanged tree: pass; (c) demo on changed tree: fail (with output).
